@@ -7,6 +7,7 @@
 -/
 import Varlink.Race
 import VarlinkProofs.Lemmas.Race
+import VarlinkProofs.Lemmas.RaceCtxio
 import Varlink.Extracted.Code
 import Varlink.ExpectedCode
 namespace Varlink.C16
@@ -273,11 +274,60 @@ theorem ctxio_successive_operations_race_free (o1 o2 : CxOp × Arm)
 
 /-- the same for three operations in a row (the helper of the first against the helper of the third is
     ordered through the caller: receive, then spawn); checked for each operation kind repeated thrice.
-    Partial: a statement for sequences of arbitrary length is not proved (the rules used are the same). -/
+    Partial (kernel evaluation of one fixed length); the statement for sequences of arbitrary length is
+    `ctxio_any_operations_race_free` below. -/
 theorem ctxio_three_operations_race_free_partial (o : CxOp × Arm) (h : o ∈ allOpArms)
     (s : St CxObj) (hr : Reach (cxProgram [o, o, o]) s) : ¬ Racy s := by
   have : ∀ o ∈ allOpArms, WF (cxProgram [o, o, o]) ∧ Disciplined (cxProgram [o, o, o]) := by decide +kernel
   exact lockset_sound _ (this o h).1 (this o h).2 s hr
+
+/-! #### sequences of arbitrary length -/
+
+/-- **the shape of the six (operation, select arm) pairs**, from the regenerated skeletons: the caller's steps
+    up to the select end with the one `go`, no channel operation before it; the arm contains the receive from
+    the helper's channel and uses, before that receive, no object the helper uses; the helper ends with its
+    one send (`Race.CxShape`).  This is the only fact about the extracted code the unbounded theorem uses. -/
+theorem ctxio_operation_shapes : ∀ o ∈ allOpArms, CxShape o := by decide +kernel
+
+/-- **any number of successive operations**: the program of a goroutine performing any sequence of
+    Read / ReadBytes / Write operations, each cancelled or completed, with all their helper goroutines, is well
+    formed and obeys the discipline.  (Caller against helper i: ordered by the later spawn or by the receive on
+    channel i; helper i against a later helper j: j was spawned after the caller received on channel i.) -/
+theorem ctxio_any_operations_disciplined (ops : List (CxOp × Arm)) (h : ∀ o ∈ ops, o ∈ allOpArms) :
+    WF (cxProgram ops) ∧ Disciplined (cxProgram ops) :=
+  cxProgram_disciplined ops fun o ho => ctxio_operation_shapes o (h o ho)
+
+/-- … **hence no reachable state of such a program, of whatever length, has a data race**: the buffer and
+    bufio.Reader accesses of every helper never race with the caller's accesses before, during and after any
+    of the calls, nor with the helper of any other operation of the sequence. -/
+theorem ctxio_any_operations_race_free (ops : List (CxOp × Arm)) (h : ∀ o ∈ ops, o ∈ allOpArms)
+    (s : St CxObj) (hr : Reach (cxProgram ops) s) : ¬ Racy s :=
+  lockset_sound _ (ctxio_any_operations_disciplined ops h).1 (ctxio_any_operations_disciplined ops h).2 s hr
+
+/-- five operations mixing all three kinds and both arms -/
+def fiveOps : List (CxOp × Arm) :=
+  [(ctxioReadOp, .cancelled), (ctxioReadBytesOp, .completed), (ctxioWriteOp, .cancelled),
+   (ctxioReadOp, .completed), (ctxioWriteOp, .completed)]
+
+/-- non-vacuity: `fiveOps` satisfies the hypothesis … -/
+example : ∀ o ∈ fiveOps, o ∈ allOpArms := by
+  intro o ho
+  simp only [fiveOps, List.mem_cons, List.not_mem_nil, or_false] at ho
+  rcases ho with rfl | rfl | rfl | rfl | rfl <;> simp [allOpArms, ctxioOps]
+
+/-- … and its program has a reachable state, after the first two operations have run to completion (their
+    helpers finished), in which the helper of the third operation (thread 3) has done its buffer access and has
+    its send still ahead, concurrently with its caller, which is started, past the spawn and waiting at the
+    receive (schedule: thread ids in the order in which they step) -/
+example : ∃ s, Reach (cxProgram fiveOps) s ∧
+    (s.th 1).finished ∧ (s.th 2).finished ∧
+    (s.th 0).started = true ∧ (s.th 3).started = true ∧
+    (s.th 3).done = [.acc .buf .write] ∧ (s.th 3).rem = [.send 2] ∧
+    (s.th 0).rem.head? = some (.recv 2) ∧ (s.th 4).started = false :=
+  ⟨_, run_reach (cxProgram fiveOps) [0, 0, 1, 1, 1, 0, 0, 0,  0, 0, 2, 2, 2, 0, 0, 0,  0, 0, 3] (by decide +kernel),
+    by unfold TSt.finished; decide +kernel, by unfold TSt.finished; decide +kernel,
+    by decide +kernel, by decide +kernel, by decide +kernel, by decide +kernel, by decide +kernel,
+    by decide +kernel⟩
 
 def exampleProgram : Prog CxObj := cxProgram [(ctxioReadOp, .cancelled), (ctxioReadBytesOp, .completed)]
 
